@@ -196,6 +196,29 @@ fn realsrv_child(tier: &str, fairness: bool) -> i32 {
     0
 }
 
+/// C03 over the shipped transports (child of the C03 check): the raw bytes a std reader gets from a
+/// real socket pair.  Prints one JSON line.
+fn c03_child(tier: &str) -> i32 {
+    let cfg = Config { max_wall: std::time::Duration::from_secs(tier_pick(tier, 60, 900)), threads: 8, ..Default::default() };
+    let cases = c19::raw_wire_cases(tier_pick(tier, 2, 3));
+    let st = sweep("raw-wire-bytes/tokio+smol", cases.len() as u64, &cfg, |i, s| {
+        let (rt, sizes, drain, small) = &cases[i as usize];
+        if sizes.iter().any(|z| *z > 100_000) {
+            s.goal("message-of-more-than-100KB-over-a-real-socket");
+        }
+        match c19::raw_wire_case(*rt, sizes, *drain, *small) {
+            Ok(n) => {
+                s.steps(sizes.len() as u64);
+                s.pass(xplore::H64::new().u(i).u(n).get())
+            }
+            Err((c, d)) => s.fail(c, format!("{rt:?}: {d}"), json!({"raw_wire_case": [format!("{rt:?}"), sizes, if *drain == usize::MAX { json!("all") } else { json!(drain) }, small]})),
+        }
+    });
+    eprintln!("[C03 child] {} cases, {} violation classes, {:.1}s", st.evals, st.violations.len(), st.wall);
+    println!("{}", xplore::report::child_json(&[st], "C19"));
+    0
+}
+
 fn run_c20(tier: &str) -> i32 {
     let mut rep = Report::new("C20", tier);
     rep.rule = "DFS over every operation sequence of up to N operations over {set(fresh value), subscribe (<=3), poll(subscriber i), clone the state handle, drop a state handle}, each run against zlink_tokio::notified and zlink_smol::notified on one thread with hand-polled streams; plus the 4 one-shot scenarios x 2 crates. Distinct = distinct observation logs".into();
@@ -250,6 +273,17 @@ fn replay(path: &str) -> i32 {
                     Some(d) => Verdict::fail("sockets:connection-ids-not-distinct", d.to_string()),
                     None if j.is_null() => Verdict::fail("sockets:loom-child-failed", "no verdict from the loom child".to_string()),
                     None => Verdict::Pass(0),
+                }))
+            }
+            "C19" if v["case"]["raw_wire_case"].is_array() => {
+                let c = &v["case"]["raw_wire_case"];
+                let rt = if c[0] == "Tokio" { RtKind::Tokio } else { RtKind::Smol };
+                let sizes: Vec<usize> = c[1].as_array().map(|a| a.iter().map(|x| x.as_u64().unwrap_or(300) as usize).collect()).unwrap_or_default();
+                let drain = c[2].as_u64().map(|d| d as usize).unwrap_or(usize::MAX);
+                let r = c19::raw_wire_case(rt, &sizes, drain, c[3].as_bool().unwrap_or(true));
+                (vec![format!("raw wire case {c}")], Ok(match r {
+                    Ok(_) => Verdict::Pass(0),
+                    Err((c, d)) => Verdict::fail(c, d),
                 }))
             }
             "C19" if v["case"]["listener_order_case"].is_array() => {
@@ -336,6 +370,7 @@ fn main() {
         Some("c20") => run_c20(&tier),
         Some("c07-child") => c07_child(&tier),
         Some("c10-child") => c10_child(&tier),
+        Some("c03-child") => c03_child(&tier),
         Some("c08-child") => realsrv_child(&tier, false),
         Some("c18-child") => realsrv_child(&tier, true),
         Some("--replay") => replay(args.get(1).map(|s| s.as_str()).unwrap_or("")),
